@@ -444,6 +444,11 @@ def stream_scmp(ctx: Ctx):
     rps = ["", ">=3.7", ">=3.8", ">=3.6,<3.9", "==3.8.*", "<3", ">=3.10", "<3.6||>=3.10", ">=3.8.0", ">=3.8,<3.8.5", "<3.7"]
     plats = [None, "manylinux_2_17_x86_64", "manylinux_2_28_x86_64", "manylinux_2_17_aarch64", "musllinux_1_1_x86_64", "musllinux_1_2_x86_64", "macos_10_9_x86_64",
              "macos_10_15_x86_64", "macos_11_0_x86_64", "macos_12_0_arm64", "macos_14_0_arm64", "windows_amd64", "windows_x86", "manylinux_3_0_x86_64", "macos_11_3_arm64"]
+    # every release of the property's configuration grid takes part (boundary releases such as macOS 10.16 / 11.0 included)
+    plats += [f"macos_10_{k}_x86_64" for k in range(4, 17)] + [f"macos_{a}_{b}_{ar}" for a in range(11, 16) for b in (0, 1, 3) for ar in ("x86_64", "arm64")]
+    plats += ["macos_10_16_arm64", "macos_10_9_arm64"] + [f"manylinux_2_{k}_{ar}" for k in (5, 12, 16, 17, 18, 24, 31, 35, 40) for ar in ("x86_64", "aarch64", "s390x", "i686")]
+    plats += [f"musllinux_1_{k}_{ar}" for k in (1, 2, 3, 4, 5) for ar in ("x86_64", "aarch64")]
+    plats = list(dict.fromkeys(plats))
     impls = [None, ("cpython", False), ("cpython", True), ("pypy", False)]
     IMPL_COQ = {None: "None", ("cpython", False): "(Some (0, false))", ("cpython", True): "(Some (0, true))", ("pypy", False): "(Some (1, false))"}
     specs = [(rp, pl, im) for rp in rps for pl in plats for im in impls]
@@ -455,6 +460,13 @@ def stream_scmp(ctx: Ctx):
         if rng.random() < 0.3:
             pb = pa if rng.random() < 0.5 else pb
             ib = ia
+        if pa is not None and rng.random() < 0.45:
+            # same OS family and architecture, another release: the only pairs on which compare() orders platforms
+            fkey = lambda q: q if q.startswith("windows") else (q.split("_")[0], q.split("_", 3)[3])  # noqa: E731
+            fam = [q for q in plats if q is not None and fkey(q) == fkey(pa)]
+            pb = rng.choice(fam)
+            if rng.random() < 0.7:
+                rb, ib = ra, ia
         A = EnvSpec.from_spec(ra, pa, ia[0] if ia else None, ia[1] if ia else False)
         B = EnvSpec.from_spec(rb, pb, ib[0] if ib else None, ib[1] if ib else False)
         r = int(A.compare(B))
@@ -551,6 +563,34 @@ def oracle_c16(ctx: Ctx, n=None):
                 osn = type(A.platform.os).__name__
                 ctx.finding(f"cmp-nest|{osn}|{A.platform}|{B.platform}", f"compare answers {ab.name} but the platform tag sets are not nested accordingly",
                             {"a": str(A), "b": str(B)}, "nested", missing[:5])
+    # compare() against tag-set nesting over every ordered pair of releases of one OS family and architecture (the property's grid)
+    grid = {("macos", "x86_64"): [f"macos_10_{k}_x86_64" for k in range(4, 17)] + [f"macos_{a}_{b}_x86_64" for a in range(11, 16) for b in range(0, 4)],
+            ("macos", "arm64"): [f"macos_10_{k}_arm64" for k in (9, 15, 16)] + [f"macos_{a}_{b}_arm64" for a in range(11, 16) for b in range(0, 4)]}
+    for ar in ("x86_64", "aarch64", "i686", "ppc64le", "s390x", "armv7l", "riscv64"):
+        grid[("manylinux", ar)] = [f"manylinux_2_{k}_{ar}" for k in range(5, 41)]
+    for ar in ("x86_64", "aarch64"):
+        grid[("musllinux", ar)] = [f"musllinux_1_{k}_{ar}" for k in range(1, 6)]
+    for (osn, ar), names in grid.items():
+        fam_specs = []
+        for nm in names:
+            try:
+                sp = mk(">=3.8", nm, None)
+                fam_specs.append((nm, sp, set(sp.platform.compatible_tags)))
+            except Exception:  # noqa: BLE001  (unsupported combination: not a spec)
+                continue
+        if ctx.tier == "quick" and len(fam_specs) > 14:
+            keep = set(rng.sample(range(len(fam_specs)), 10)) | {i for i, (nm, _, _) in enumerate(fam_specs) if nm.startswith(("macos_10_16", "macos_11_0", "macos_10_15", "manylinux_2_17", "manylinux_2_5_"))}
+            fam_specs = [f for i, f in enumerate(fam_specs) if i in keep]
+        for (na, A, ta), (nb, B, tb) in itertools.product(fam_specs, fam_specs):
+            ctx.count("oracle-C16", 1, nontrivial_key=("cmp-grid", na, nb))
+            ab = A.compare(B)
+            if ab in (EC.LOWER_OR_EQUAL, EC.HIGHER):
+                lo, hi = (ta, tb) if ab == EC.LOWER_OR_EQUAL else (tb, ta)
+                if not lo <= hi:
+                    ctx.finding(f"cmp-nest|{type(A.platform.os).__name__}|{na}|{nb}", f"compare answers {ab.name} but the platform tag sets are not nested accordingly",
+                                {"a": str(A), "b": str(B)}, "nested", sorted(lo - hi)[:5])
+            if ab == EC.HIGHER and B.compare(A) == EC.HIGHER:
+                ctx.finding(f"cmp-higher|{na}|{nb}", "HIGHER in both directions", {"a": str(A), "b": str(B)}, None, "HIGHER/HIGHER")
     ctx.sample({"stream": "oracle-C16", "pair": ["(>=3.8, musllinux_1_2_x86_64)", "(>=3.8, musllinux_1_1_x86_64)"]})
 
 
